@@ -107,11 +107,40 @@ def rule_sib(ctx):
     roots = {'sdl': set(), 'json': set()}
     stores = {'sdl': set(), 'json': set()}
     cg = callgraph(ctx)
-    for fr, mod in (('sdl', SDL_MOD), ('json', JSON_MOD)):
-        for fn in ctx.crate('codegen').all_fns():
-            if not norm_path(fn.path).startswith(mod) or fn.from_macro:
+    # lower-case constructor helpers of TypeId (`TypeId::r#enum(idx)`): which variant each builds
+    id_helpers = {}
+    for hf in ctx.crate('codegen').all_fns():
+        hp = norm_path(hf.path)
+        if hp.startswith('graphql_client_codegen::schema::TypeId::') and not hf.from_macro and 'TypeId' in hf.d.get('output', ''):
+            try:
+                ht = ctx.pv.eval(hf, hf.body, H.sym_env(hf), 0)
+            except Exception:
                 continue
+            ks_ = {s_[1].split('::')[-1] for s_ in P.subterms(ht) if isinstance(s_, tuple) and s_ and s_[0] == 'ctor' and 'TypeId::' in s_[1]}
+            if len(ks_) == 1:
+                id_helpers[hp] = next(iter(ks_))
+    for fr, mod in (('sdl', SDL_MOD), ('json', JSON_MOD)):
+        fam = [fn for fn in ctx.crate('codegen').all_fns() if norm_path(fn.path).startswith(mod) and not fn.from_macro]
+        # .. and the Schema methods they reach (`push_named_scalar`, a generic `push_indexed` ..)
+        reach = cg.reachable([f_.key for f_ in fam])
+        for k_ in sorted(reach):
+            f_ = ctx.fn_by_key(k_)
+            if f_ is not None and f_ not in fam and not f_.from_macro and norm_path(f_.path).startswith('graphql_client_codegen::schema::Schema::') \
+                    and not norm_path(f_.path).endswith(('Schema::new', 'Schema::push_default_scalars')):
+                fam.append(f_)
+        names_written = False
+        for fn in fam:
             for n_ in walk(fn.body):
+                # a TypeId constructor helper named as a function item or called: the kind it builds is registered
+                if n_['k'] == 'path' and norm_path((n_.get('res') or {}).get('path', '') or '') in id_helpers:
+                    kinds[fr].add(id_helpers[norm_path(n_['res']['path'])])
+                # `&mut schema.stored_x` handed to a helper that appends
+                if n_['k'] == 'ref' and n_.get('mut'):
+                    r_ = n_['e']
+                    while r_.get('k') in ('ref', 'wrap'):
+                        r_ = r_['e']
+                    if r_.get('k') == 'field' and r_['name'].startswith('stored_') and r_.get('adt', '').endswith('schema::Schema'):
+                        stores[fr].add(r_['name'])
                 if n_['k'] == 'mcall' and n_['method'] == 'insert':
                     r = n_['recv']
                     while r.get('k') in ('ref', 'wrap'):
@@ -483,6 +512,41 @@ def rule_sdl_details(ctx):
                 n_ins += 1
                 if 'enumerate' not in ch or ch & {'rev', 'sorted', 'skip', 'step_by'}:
                     bad_chain.append(sorted(ch))
+        if not bad_chain and n_ins < 4:
+            # other spellings: `for (idx, x) in xs.iter().enumerate()`, possibly in a helper called once per kind
+            fam_ = [(f, 1)]
+            for c_ in H.calls_in(f):
+                for lf_ in ctx.pv.local_fns(c_.get('callee')):
+                    if not lf_.from_macro and norm_path(lf_.path).startswith(SDL_MOD if fr == 'sdl' else JSON_MOD) and lf_.key != f.key:
+                        fam_.append((lf_, 1))
+            mult = {}
+            for lf_, _m in fam_[1:]:
+                mult[lf_.key] = mult.get(lf_.key, 0) + 1
+            n_enum = 0
+            seen_ = set()
+            for lf_, _m in fam_:
+                if lf_.key in seen_:
+                    continue
+                seen_.add(lf_.key)
+                for n in walk(lf_.body):
+                    if n['k'] == 'mcall' and n['method'] == 'enumerate':
+                        ch = set()
+                        cur = n['recv']
+                        while cur is not None and cur.get('k') in ('mcall', 'ref', 'wrap'):
+                            if cur.get('k') == 'mcall':
+                                ch.add(cur['method'])
+                                cur = cur['recv']
+                            else:
+                                cur = cur['e']
+                        if ch & {'rev', 'sorted', 'skip', 'step_by', 'take', 'filter', 'filter_map'} and lf_ is not f:
+                            bad_chain.append(sorted(ch))
+                        n_enum += mult.get(lf_.key, 1) if lf_ is not f else 1
+            if not bad_chain and n_enum >= 4:
+                obs.append(ok('ID-ORDER', fr + '/ids', 'ids = position within kind, in source order (%d enumerations, through a per-kind helper)' % n_enum, f.loc))
+                continue
+            if not bad_chain:
+                obs.append(undecided('ID-ORDER', fr + '/ids', 'the way ids are numbered was not recognised (%d for_each chains, %d enumerations)' % (n_ins, n_enum), f.loc))
+                continue
         if bad_chain or n_ins < 4:
             obs.append(bad('ID-ORDER', fr + '/ids', 'ids are not assigned by enumerate() over the kind-filtered definitions in source order (%s; %d loops)' % (bad_chain, n_ins), f.loc,
                            'item order of generated code differs between renderings'))
